@@ -66,7 +66,7 @@ class RefsWorld:
     props = ('C02', 'C08')
     levels = {'C02': 'fault_enumeration', 'C08': 'exploration'}
     chunk = 300
-    budget = {'quick': dict(runs=16000, wall=45.0), 'thorough': dict(runs=800000, wall=900.0)}
+    budget = {'quick': dict(runs=16000, wall=180.0), 'thorough': dict(runs=800000, wall=900.0)}
     time_unit = 'n/a: logical steps only'
     state_measure = 'distinct (number of live links, reference kinds in use, tainted sources) tuples after each step'
     components = {'real': ['Parameter.__set__ reference branch, Parameters._resolve_ref/_update_ref/_setup_refs/_sync_refs/update, '
